@@ -5,8 +5,12 @@
    For every logged critical section of task a the model's actor a is stepped through its silent frames until its
    top frame expects that lock, the step is taken, and the snapshot of the protected data logged by the implementation
    must equal the model's.  Read-only sections the model does not have (debug assertions, Debug printing, the reap
-   pass) are stutters: their snapshot must equal the model's current view.  Usage: replay file.log ... *)
-open L1model
+   pass) are stutters: their snapshot must equal the model's current view.  Usage: replay file.log ...
+
+   Programs with nested operations (`(op)` in a body) are replayed on the nested model L1n (coq/theories/L1n/Model.v, extracted by
+   ExtractL1n.v): every body is an activation; a nested operation is executed by the task that runs the enclosing job, so the
+   sections of a task go to the deepest activation of its chain that has been started and has not finished (see [resolve]). *)
+open L1nmodel
 
 let rec nat_of_int n = if n <= 0 then O else S (nat_of_int (n - 1))
 let rec int_of_nat = function O -> 0 | S n -> 1 + int_of_nat n
@@ -29,6 +33,7 @@ let show_label = function
 exception Diverge of string
 let max_waiters = ref 0      (* largest number of sync callers registered on one queue at the same time, so far in this trace *)
 exception Unsupported of string
+exception Redirect of int        (* nested programs: the task's sections now belong to another activation of its chain *)
 
 (* ---------- program text -> scripts (L1 programs only: D/S/T with body [t]) ---------- *)
 let parse_prog (text : string) =
@@ -48,6 +53,47 @@ let parse_prog (text : string) =
       match tok.[0] with 'D' -> ODesync q | 'S' -> OSync q | 'T' -> OTrySync q | _ -> raise (Unsupported tok))
       (List.filter (fun x -> x <> "") (String.split_on_char ' ' p))) (List.tl parts) in
   (nq, pool, scripts)
+
+(* programs with nested operations: body = (t | '(' op ')')*  ->  the recursive syntax of L1n *)
+let parse_nested (text : string) =
+  let parts = String.split_on_char '|' text in
+  let head = List.hd parts in
+  let kv = List.filter (fun x -> x <> "") (String.split_on_char ' ' head) in
+  let get k d = List.fold_left (fun acc x -> match String.split_on_char '=' x with [a; b] when a = k -> int_of_string b | _ -> acc) d kv in
+  let nq = get "nq" 1 and pool = get "pool" 0 in
+  let parse_tok tok =
+    let n = String.length tok in
+    let pos = ref 0 in
+    let fail () = raise (Unsupported tok) in
+    let rec op () =
+      if !pos >= n then fail ();
+      let c = tok.[!pos] in
+      incr pos;
+      let j = ref !pos in
+      while !j < n && tok.[!j] >= '0' && tok.[!j] <= '9' do incr j done;
+      if !j = !pos then fail ();
+      let q = nat_of_int (int_of_string (String.sub tok !pos (!j - !pos))) in
+      pos := !j;
+      if !pos >= n || tok.[!pos] <> '[' then fail ();
+      incr pos;
+      let b = body () in
+      if !pos >= n || tok.[!pos] <> ']' then fail ();
+      incr pos;
+      (match c with 'D' -> NDesync (q, b) | 'S' -> NSync (q, b) | 'T' -> NTrySync (q, b) | _ -> fail ())
+    and body () =
+      if !pos >= n then fail ()
+      else match tok.[!pos] with
+        | 't' -> incr pos; body ()
+        | '(' -> incr pos; let o = op () in if !pos >= n || tok.[!pos] <> ')' then fail (); incr pos; o :: body ()
+        | ']' -> []
+        | _ -> fail () in
+    let o = op () in
+    if !pos <> n then fail ();
+    o in
+  let scripts = List.map (fun p -> List.map parse_tok (List.filter (fun x -> x <> "") (String.split_on_char ' ' p))) (List.tl parts) in
+  (nq, pool, scripts)
+
+type mode = Plain | Nested of int * act list        (* number of top-level callers, the flattened program *)
 
 (* ---------- what each frame does to which lock (events are logged at the END of a critical section) ---------- *)
 let i = int_of_nat
@@ -147,8 +193,9 @@ let snapshot (s : state) (l : label) : string option =
 (* ---------- replay ---------- *)
 type stats = { mutable steps : int; mutable stutters : int; mutable labelled : int }
 
-let replay tables facts (nq, pool, scripts) (evs : ev array) =
-  let s = ref (init (nat_of_int nq) (nat_of_int pool) scripts) in
+let replay tables facts (mode : mode) (nq, pool, scripts) (evs : ev array) =
+  let ns = ref (match mode with Nested (_, p) -> Some (ninit (nat_of_int nq) (nat_of_int pool) p) | Plain -> None) in
+  let s = ref (match !ns with Some x -> x.base | None -> init (nat_of_int nq) (nat_of_int pool) scripts) in
   let st = { steps = 0; stutters = 0; labelled = 0 } in
   let n = Array.length evs in
   (* identities of per-call mutexes: ready/syncres ordinal -> actor, learnt from the creation events *)
@@ -170,7 +217,12 @@ let replay tables facts (nq, pool, scripts) (evs : ev array) =
   max_waiters := 0;
   let try_step a =
     List.iter (fun (qq : queue) -> let live = List.length (List.filter (fun w -> not (List.nth !s.actors (int_of_nat w)).ready) qq.wake_blocked) in if live > !max_waiters then max_waiters := live) !s.queues;
-    step tables facts !s (nat_of_int a) in
+    (match mode, !ns with
+     | Nested (ntop, p), Some x ->
+       (match nstep tables facts (nat_of_int ntop) p { x with base = !s } (nat_of_int a) with
+        | Some x' -> ns := Some x'; Some x'.base
+        | None -> None)
+     | _ -> step tables facts !s (nat_of_int a)) in
   let frame_name a = match top a with
     | Some (FSBwait _) -> "FSBwait" | Some (FSTscan _) -> "FSTscan" | Some (FTrecv _) -> "FTrecv" | Some (FTop _) -> "FTop" | Some (FTnext _) -> "FTnext"
     | Some FSTlock -> "FSTlock" | Some FSTspawn -> "FSTspawn" | Some (FSBclaim _) -> "FSBclaim" | Some (FD2 _) -> "FD2" | Some (FRQ2 _) -> "FRQ2" | Some (FTexam _) -> "FTexam"
@@ -185,6 +237,21 @@ let replay tables facts (nq, pool, scripts) (evs : ev array) =
   let describe a = match top a with
     | Some fr -> let e = expected tables facts !s a (actor a) fr in (match e.at with Some l -> show_label l | None -> "nothing")
     | None -> "nothing" in
+  (* nested programs: the body activation of the closure that activation a is about to finish, if any *)
+  let body_of a = match mode, !ns with
+    | Nested _, Some x ->
+      (match List.nth_opt !s.actors a with
+       | Some ac -> (match clos_op ac with
+           | Some o -> (match List.nth_opt x.ops (i o) with Some (_, Some k) -> Some (i k, List.exists (fun y -> i y = i k) x.started) | _ -> None)
+           | None -> None)
+       | None -> None)
+    | _ -> None in
+  let needs_start a = match body_of a with Some (_, false) -> true | _ -> false in
+  (* the activation of the chain of [a] that the task's next section belongs to: the deepest one that has been started and
+     has not finished (or has finished, but sections of its last model step are still to come) *)
+  let rec resolve a = match body_of a with
+    | Some (k, true) when not (done_b !s (nat_of_int k)) || get pend k [] <> [] -> resolve k
+    | _ -> a in
   (* task ids of the controlled runtime are spawn ordinals, which depend on the schedule: callers announce themselves,
      a pool thread is recognised by the first busy flag it takes (its own) *)
   let actor_of : (int, int) Hashtbl.t = Hashtbl.create 8 in
@@ -197,11 +264,14 @@ let replay tables facts (nq, pool, scripts) (evs : ev array) =
     if e0.kind = "api" then ()
     else if e.task < 0 && e.kind <> "new" then ()          (* set-up by the main thread before it announces itself *)
     else if e.kind = "new" then begin
-      (if e.cls = "ready" then Hashtbl.replace ready_of e.id e.task else if e.cls = "syncres" then Hashtbl.replace syncres_of e.id e.task)
+      (let a = if e.task >= 0 then resolve e.task else e.task in
+       if e.cls = "ready" then Hashtbl.replace ready_of e.id a else if e.cls = "syncres" then Hashtbl.replace syncres_of e.id a)
     end else match label_of e with
       | None -> ()
       | Some lab ->
-        let a = e.task in
+        let root = e.task in
+        let rec handle a guard =
+        if guard = 0 then raise (Diverge "too many activations") else try begin
         let stutter why =
           if is_acq lab then ()
           else if agrees !s lab e.snap then st.stutters <- st.stutters + 1
@@ -219,6 +289,8 @@ let replay tables facts (nq, pool, scripts) (evs : ev array) =
            (* 2. silent frames, then the frame that expects something *)
            let rec settle guard =
              if guard = 0 then raise (Diverge "too many silent steps");
+             if needs_start a then (match try_step a with Some s' -> s := s'; st.steps <- st.steps + 1; raise (Redirect (resolve root)) | None -> ());
+             (let a' = resolve root in if a' <> a then raise (Redirect a'));
              match top a with
              | None -> silent
              | Some fr ->
@@ -254,16 +326,22 @@ let replay tables facts (nq, pool, scripts) (evs : ev array) =
                                        (match snapshot !s lab with Some m -> m | None -> "?")))
               end
               else stutter "not the section the model expects"))
+        end with Redirect a' -> handle a' (guard - 1) in
+        handle (resolve root) 50
   done;
   (* at END every caller has finished its script in the implementation: the model's callers must get there by silent steps *)
-  let ncallers = List.length scripts in
-  for a = 0 to ncallers - 1 do
-    let rec fin guard = if guard > 0 then match top a with
+  let ncallers = (match mode with Nested (ntop, _) -> ntop | Plain -> List.length scripts) in
+  for root = 0 to ncallers - 1 do
+    let rec fin guard = if guard > 0 then
+      let a = resolve root in
+      if needs_start a then (match try_step a with Some s' -> s := s'; fin (guard - 1) | None -> ()) else
+      match top a with
+        | Some (FTop []) when a <> root -> Hashtbl.replace pend a []; fin (guard - 1)
         | Some (FTop []) -> ()
         | Some fr when (expected tables facts !s a (actor a) fr).at = None -> (match try_step a with Some s' -> s := s'; fin (guard - 1) | None -> raise (Diverge (Printf.sprintf "at END caller %d is blocked at %s in the model" a (frame_name a))))
         | Some _ -> raise (Diverge (Printf.sprintf "at END caller %d still has critical sections to perform in the model (%s)" a (frame_name a)))
         | None -> () in
-    fin 100
+    fin (match mode with Plain -> 100 | Nested _ -> 300)
   done;
   st
 
@@ -288,8 +366,12 @@ let () =
       if String.length !status < 2 || String.sub !status 0 2 <> "ok" then incr skipped
       else
         (try
-           let p = parse_prog !prog in
-           let st = replay gen_tables gen_facts p evs in
+           let (mode, p) =
+             (try (Plain, parse_prog !prog) with Unsupported _ ->
+                let (nq, pool, nscripts) = parse_nested !prog in
+                let fp = flatten nscripts in
+                (Nested (List.length nscripts, fp), (nq, pool, List.map (fun (a : act) -> a.a_script) fp))) in
+           let st = replay gen_tables gen_facts mode p evs in
            incr ok; steps := !steps + st.steps; labelled := !labelled + st.labelled; stutters := !stutters + st.stutters; events := !events + Array.length evs;
            Printf.printf "OK\t%s\t%d\t%d\n" file st.steps st.labelled
          with
